@@ -208,8 +208,19 @@ def spec_open(case, res):
     if ow:
         return "a rename overwrote copy %s which still held the retained records %r" % (ow[0][1], ow[0][2])
     ids = []
-    for f in res["files"][0]:
+    names = ["copy %02d" % k for k in range(case["keep"], 0, -1)] + ["main"]
+    for name, f in zip(names, res["files"][0]):
         if f:
+            # the logger may die loudly after the fault, but what it leaves behind must be well formed: every
+            # non-empty retained file starts with the header (exactly one), its records are whole lines
+            if f[0] != "H":
+                return ("retained file %s holds %d records but does not start with the header: %r; the %d-th "
+                        "creation of the new main file failed once%s" % (
+                            name, len(f), f[:2], case["fail_open"],
+                            " (os.open of the main path right after os.rename(main, copy 01))"
+                            if case.get("create_level") else ""))
+            if any(i == "H" for i in f[1:]):
+                return "second header inside retained file %s" % name
             if any(i != "H" and i[0] == "P" for i in f):
                 return "garbled line"
             ids += [it[1] for it in f if it != "H"]
@@ -424,6 +435,19 @@ def run(ctx):
     pairs, metas = [], []
     # 1. clean runs, in process
     cases = []
+    # 0. directed family, first in both tiers: ONE transient failure of the creation of the new main file, located
+    #    on the disk -- the os.open of the main path that follows the j-th successful os.rename(main, copy 01)
+    #    inside Log.cycle raises EMFILE once, every later open works; the history goes on with a record per run
+    #    and a rotation every 2 ticks (so whatever main file exists after the fault is rotated into the copies),
+    #    with (j = 1, 3) and without (j = 2) a final STOP; compared with the model's runfo and with the statement (spec_open)
+    for keep in (1, 2, 3):
+        for reuse in (False, True):
+            for j in (1, 2, 3):
+                ops = [["start", 1]] + sum([[["tick", 1], ["run", 1]] for _ in range(2 * j + 2 * keep + 5)], [])
+                if j != 2:
+                    ops += [["tick", 1], ["stop", 1]]
+                cases.append({"keep": keep, "cycleP": 2, "fsize": 0 if j != 2 else 10, "flushP": 24,
+                              "reuse": reuse, "procs": [ops], "fail_open": j, "create_level": "os.open"})
     base = [["start", 1]] + sum([[["tick", 1], ["run", 1]] for _ in range(16)], []) + [["tick", 1], ["stop", 1]]
     for reuse in (False, True):
         cases.append({"keep": 2, "cycleP": 4, "fsize": 10, "flushP": 24, "reuse": reuse, "procs": [base]})
@@ -453,7 +477,10 @@ def run(ctx):
         res = harness.run_case(case, work)
         nrot = sum(1 for c in res["spy"]["cycles"] if c[3])
         ctx.case({"case": case, "files": res["files"]}, nontrivial=nrot > 0,
-                 kind=("openfail:keep=%d:hit=%s:surfaced=%s" % (case["keep"], res["opens"] >= case["fail_open"],
+                 kind=("createfail(os.open after rename):keep=%d:reuse=%s:hit=%s:surfaced=%s" % (
+                           case["keep"], case["reuse"], bool(res.get("fired")), bool(res.get("surfaced")))
+                       if case.get("create_level") else
+                       "openfail:keep=%d:hit=%s:surfaced=%s" % (case["keep"], res["opens"] >= case["fail_open"],
                                                                  bool(res.get("surfaced")))
                        if case.get("fail_open") is not None else
                        "renamefail:keep=%d:hit=%s" % (case["keep"], res["spy"]["renames"] >= case["fail_rename"])
